@@ -149,6 +149,27 @@ impl ToTokens for TraitVisibility<'_> {
                             push_tokens!(stream, syn::token::Super::default());
                         });
                     }
+                    syn::Visibility::Restricted(restricted)
+                        if is_relative_path(&restricted.path) =>
+                    {
+                        // `self` and `super` are relative to where the attribute is written,
+                        // which is one level above the module the trait is generated in.
+                        push_tokens!(stream, restricted.pub_token);
+                        restricted.paren_token.surround(stream, |stream| {
+                            push_tokens!(
+                                stream,
+                                syn::token::In::default(),
+                                syn::token::Super::default()
+                            );
+                            for segment in &restricted.path.segments {
+                                // a leading `self` is that outer scope itself
+                                let is_self = segment.ident == "self";
+                                if !is_self {
+                                    push_tokens!(stream, syn::token::PathSep::default(), segment);
+                                }
+                            }
+                        });
+                    }
                     _ => {
                         push_tokens!(stream, self.visibility);
                     }
@@ -158,6 +179,15 @@ impl ToTokens for TraitVisibility<'_> {
                 push_tokens!(stream, self.visibility);
             }
         }
+    }
+}
+
+fn is_relative_path(path: &syn::Path) -> bool {
+    match path.segments.first() {
+        Some(segment) => {
+            path.leading_colon.is_none() && (segment.ident == "self" || segment.ident == "super")
+        }
+        None => false,
     }
 }
 
